@@ -11,7 +11,7 @@ from . import C01
 GEN_SECTIONS = ["Tables"]
 # the hint scan's AST is dumped from /repo and proved equal to the hand model's indexOfProximal (lean/Chartparse/Tie/Scan.lean)
 LEAVES = {'Scan': 'scan', 'TsAt': ['tsat', 'between', 'timeadd'], 'Compose': [], 'LoopEvents': [], 'ComposeLoopEvents': [], 'LoopGlue': [], 'LoopStamp': []}
-IMP = ['dataToEvents', 'noteFromParsedData', 'specialFromParsedData', 'trackEventFromParsedData', 'globalEventFromParsedData', 'anchorFromParsedData']  # functions dumped as terms of the imperative embedding, run against CPython on every run
+IMP = ['dataToEvents', 'noteFromParsedData', 'specialFromParsedData', 'trackEventFromParsedData', 'globalEventFromParsedData', 'anchorFromParsedData', 'timeSignatureFromParsedData']  # functions dumped as terms of the imperative embedding, run against CPython on every run
 TRUSTED = C01.TRUSTED + ["generated kind orders (the chains are per kind)"]
 ASSUMPTIONS = ["hints 0…len (negative hints would use Python negative indexing and are not claimed)"]
 RULE = ("(a) exhaustive: every tempo map with ≤ 4 events on a small tick grid × every tick × every hint 0..len+1 through the "
